@@ -123,8 +123,9 @@ func checkC03(c *Ctx) *report.Result {
 	// the cycle an access falls in is its position in the row only if the scheduler runs every row entry exactly once, in order
 	r.Rule("M-step", "scheduler lemmas of C02 (S1 one entry per step, S2 every fetch installs this opcode's row and predicate, S3 finished predicate, S6 fetch gate) re-stated: a row entry that is skipped or cut off is an access that does not happen in its documented cycle")
 	adopt(r, c.sibling("C02"), map[string]string{"S1": "M-step", "S2": "M-step", "S3": "M-step", "S6": "M-step", "L-cond": "M-step"}, "an instruction cut short or stretched by the scheduler performs its accesses in other cycles, or not at all")
-	r.Rule("M-effect", "a store takes effect in the cycle it is made: register writes are applied by the decoder at once (B-readback / A-plain of C06: Write(v);Read() composes) and the frame loop calls nothing but the five per-cycle steps (L2 of C26)")
-	adopt(r, c.sibling("C06"), map[string]string{"B-readback": "M-effect", "A-plain": "M-effect"}, "a write that is queued and applied later reaches the hardware in another cycle than the one the instruction makes it in")
+	r.Rule("M-effect", "a store takes effect in the cycle it is made: register writes are applied by the decoder at once (B-readback / A-plain / A-mirror / A-void of C06: Write(v);Read() composes; cartridge RAM stores reach the selected bank: R-bank / R-gate / R-enable of C09) and the frame loop calls nothing but the five per-cycle steps (L2 of C26)")
+	adopt(r, c.sibling("C06"), map[string]string{"B-readback": "M-effect", "A-plain": "M-effect", "A-mirror": "M-effect", "A-void": "M-effect"}, "a write that is queued and applied later reaches the hardware in another cycle than the one the instruction makes it in")
+	adopt(r, c.sibling("C09"), map[string]string{"R-bank": "M-effect", "R-gate": "M-effect", "R-enable": "M-effect"}, "a store that lands in another cartridge RAM bank than the selected one, or is dropped, does not reach the addressed location in its cycle")
 	adopt(r, c.sibling("C26"), map[string]string{"L2": "M-effect"}, "an extra step in the frame loop that delivers queued writes moves their effect to another cycle")
 	return r
 }
